@@ -145,6 +145,8 @@ def gen_worker(d: D, prof: dict, depth: int, n_hint: int) -> dict:
     if d.p(prof["p_callfault"]) and n_hint > 0:
         ws["callfault"] = sorted({d.i(0, max(0, n_hint - 1)) for _ in range(d.i(1, 2))})
     ws["fname"] = d.pick(prof["fnames"])
+    if d.p(0.08):
+        ws["partial"] = True
     if depth == 0 and d.p(prof["p_embedded"] * 0.5):
         ws["call_op"] = gen_op(d, prof, d.pick(["cancel_group", "cancel", "gate", "lock"]), depth + 1)
         ws["call_op_at"] = d.i(0, max(0, n_hint - 1))
